@@ -590,20 +590,131 @@ def _same_or_inner_block(stmt, node) -> bool:
 TRACKER_FIELDS = {"self.in_injections", "self.out_injections"}
 
 
-def selector_fn(repo) -> FuncInfo:
+def nt_fields(repo, name: Optional[str], mod) -> Optional[List[str]]:
+    """Field names of a typing.NamedTuple class referenced as `name` in module `mod`."""
+    ci = repo.resolve_class(name, mod) if name else None
+    if ci is None or not any(b_.split(".")[-1] == "NamedTuple" for b_ in ci.base_names):
+        return None
+    return [st.target.id for st in ci.node.body if isinstance(st, ast.AnnAssign) and isinstance(st.target, ast.Name)]
+
+
+def _pair_elems(repo, f: FuncInfo, v) -> Optional[Tuple[List[ast.AST], Optional[List[str]]]]:
+    """v is a pair of the two tracker fields: a 2-tuple, or a 2-field NamedTuple construction."""
+    if isinstance(v, ast.Tuple) and len(v.elts) == 2 and {ap(e) for e in v.elts} == TRACKER_FIELDS:
+        return list(v.elts), None
+    if isinstance(v, ast.Call):
+        fields = nt_fields(repo, ap(v.func), f.module)
+        if fields is not None and len(fields) == 2:
+            vals = {fields[i]: a_ for i, a_ in enumerate(v.args) if i < 2}
+            vals.update({k.arg: k.value for k in v.keywords if k.arg})
+            if set(vals) == set(fields) and {ap(x) for x in vals.values()} == TRACKER_FIELDS:
+                return [vals[fields[0]], vals[fields[1]]], fields
+    return None
+
+
+class SelectorInfo:
+    def __init__(self, fn, rows, fields):
+        self.fn, self.rows, self.fields = fn, rows, fields     # rows: [(return node, [elem0, elem1])]
+        self.pos_roles = ["fwd", "rev"]                        # refined by r1 from the per-direction rows
+
+
+_SEL_CACHE: List[Any] = []      # [(repo, info)] - holds the repo so that its identity cannot be recycled
+
+
+def selector_info(repo) -> SelectorInfo:
     """The tracker-selecting helper of ProxiedCircuit, found by shape (not by name): the method all of
-    whose returns are pairs of the two per-direction tracker fields."""
+    whose returns are pairs (tuple / NamedTuple) of the two per-direction tracker fields."""
+    if _SEL_CACHE and _SEL_CACHE[0][0] is repo:
+        return _SEL_CACHE[0][1]
     ci = repo.cls("ProxiedCircuit", PCIRC)
     found = []
     for f in ci.methods.values():
         rets = [r for r in walk(f.node) if isinstance(r, ast.Return)]
-        if rets and all(isinstance(r.value, ast.Tuple) and len(r.value.elts) == 2
-                        and {ap(e) for e in r.value.elts} == TRACKER_FIELDS for r in rets):
-            found.append(f)
+        rows, fields, ok = [], None, bool(rets)
+        for r in rets:
+            pe = _pair_elems(repo, f, r.value)
+            if pe is None:
+                ok = False
+                break
+            rows.append((r, pe[0]))
+            fields = pe[1] or fields
+        if ok:
+            found.append(SelectorInfo(f, rows, fields))
     if len(found) != 1:
         raise AnalysisError(f"ProxiedCircuit: expected one method returning the (in_injections, out_injections) pairs "
-                            f"by direction, found {[f.qual for f in found]}")
-    return found[0]
+                            f"by direction, found {[x.fn.qual for x in found]}")
+    info = found[0]
+    # which position is the forward tracker: the one that is out_injections for OUT and in_injections for IN
+    by_dir: Dict[str, List[str]] = {}
+    dparam = msg_param(info.fn)
+    for ret, elems in info.rows:
+        d = _direction_of(ret, info.fn, dparam)
+        if d is not None:
+            by_dir[d] = [ap(e) for e in elems]
+    info.by_dir = by_dir
+    if set(by_dir) == {"OUT", "IN"}:
+        roles = []
+        for i in range(2):
+            o, n = by_dir["OUT"][i], by_dir["IN"][i]
+            roles.append("fwd" if (o, n) == ("self.out_injections", "self.in_injections") else
+                         "rev" if (o, n) == ("self.in_injections", "self.out_injections") else None)
+        if None not in roles and set(roles) == {"fwd", "rev"}:
+            info.pos_roles = roles
+            info.consistent = True
+        else:
+            info.consistent = False
+    else:
+        info.consistent = False
+    _SEL_CACHE[:] = [(repo, info)]
+    return info
+
+
+def _direction_of(ret, fn: FuncInfo, dparam: str) -> Optional[str]:
+    pol = None
+    for e, p in facts(ret, fn.node):
+        if isinstance(e, ast.Compare) and len(e.ops) == 1 and isinstance(e.ops[0], (ast.Eq, ast.NotEq, ast.Is, ast.IsNot)):
+            l, r = ap(e.left) or "", ap(e.comparators[0]) or ""
+            if dparam in (l, r):
+                other = r if l == dparam else l
+                eq = isinstance(e.ops[0], (ast.Eq, ast.Is)) == p
+                if other.endswith("Direction.OUT"):
+                    pol = "OUT" if eq else "IN"
+                elif other.endswith("Direction.IN"):
+                    pol = "IN" if eq else "OUT"
+    return pol
+
+
+def selector_fn(repo) -> FuncInfo:
+    return selector_info(repo).fn
+
+
+class Roles(dict):
+    """local name -> 'fwd' | 'rev' | 'pair' | 'pair~' (the whole selector result, ~ = asked for the inverse direction)."""
+    def __init__(self, info: SelectorInfo):
+        super().__init__()
+        self.info = info
+
+    def of(self, e) -> Optional[str]:
+        if isinstance(e, ast.Name):
+            r = self.get(e.id)
+            return r if r in ("fwd", "rev") else None
+        base, idx = None, None
+        if isinstance(e, ast.Attribute) and isinstance(e.value, ast.Name) and self.info.fields and e.attr in self.info.fields:
+            base, idx = e.value.id, self.info.fields.index(e.attr)
+        elif isinstance(e, ast.Subscript) and isinstance(e.value, ast.Name) and isinstance(e.slice, ast.Constant) \
+                and e.slice.value in (0, 1):
+            base, idx = e.value.id, e.slice.value
+        if base is not None and self.get(base) in ("pair", "pair~"):
+            r = self.info.pos_roles[idx]
+            if self[base] == "pair~":
+                r = "rev" if r == "fwd" else "fwd"
+            return r
+        return None
+
+    def whole(self, e) -> Optional[str]:
+        if isinstance(e, ast.Name) and self.get(e.id) in ("pair", "pair~"):
+            return self[e.id]
+        return self.of(e)
 
 
 def method_params(callee: FuncInfo) -> List[str]:
@@ -623,46 +734,65 @@ def resolve_method_call(repo, fi: FuncInfo, c: ast.Call) -> Optional[FuncInfo]:
     return None
 
 
-def tracker_roles(ctx, start: FuncInfo) -> Dict[FuncInfo, Dict[str, str]]:
-    """For start and the self.-helpers it reaches: local name -> 'fwd' | 'rev'."""
+def tracker_roles(ctx, start: FuncInfo) -> Dict[FuncInfo, Roles]:
+    """For start and the self.-helpers it reaches: which locals / parameters hold the forward tracker, the
+    reverse tracker, or the whole selector result."""
     repo = ctx.repo
-    sel = selector_fn(repo)
-    out: Dict[FuncInfo, Dict[str, str]] = {start: {}}
+    info = selector_info(repo)
+    sel = info.fn
+    out: Dict[FuncInfo, Roles] = {start: Roles(info)}
     work = [start]
+
+    def unpack(roles, tgt, whole, fi):
+        if isinstance(tgt, ast.Name):
+            roles[tgt.id] = whole
+        elif isinstance(tgt, ast.Tuple) and len(tgt.elts) == 2 and all(isinstance(e, ast.Name) for e in tgt.elts):
+            pr = list(info.pos_roles)
+            if whole == "pair~":
+                pr = ["rev" if r == "fwd" else "fwd" for r in pr]
+            roles[tgt.elts[0].id], roles[tgt.elts[1].id] = pr
+        else:
+            raise AnalysisError(f"{fi.qual}: result of {sel.name} is neither kept whole nor unpacked into two names")
     while work:
         fi = work.pop()
         roles = out[fi]
-        for n in walk(fi.node):
-            if isinstance(n, ast.Assign) and isinstance(n.value, ast.Call) and call_attr(n.value) == sel.name:
-                tgt = n.targets[0]
-                if not (isinstance(tgt, ast.Tuple) and len(tgt.elts) == 2 and all(isinstance(e, ast.Name) for e in tgt.elts)):
-                    raise AnalysisError(f"{fi.qual}: result of {sel.name} is not unpacked into two names")
-                arg = n.value.args[0] if n.value.args else None
-                m = msg_param(fi)
-                swap = False
-                if arg is not None and ap(arg) == f"{m}.direction":
-                    swap = False
-                elif arg is not None and is_invert_of(arg, f"{m}.direction"):
-                    swap = True
-                else:
-                    raise AnalysisError(f"{fi.qual}: {sel.name} argument {norm(arg) if arg is not None else None} "
-                                        f"is not the message's direction")
-                a, b = tgt.elts[0].id, tgt.elts[1].id
-                roles[a], roles[b] = ("rev", "fwd") if swap else ("fwd", "rev")
+        changed = True
+        while changed:
+            changed = False
+            before = dict(roles)
+            for n in walk(fi.node):
+                if not isinstance(n, ast.Assign) or len(n.targets) != 1:
+                    continue
+                if isinstance(n.value, ast.Call) and call_attr(n.value) == sel.name and resolve_method_call(repo, fi, n.value) == sel:
+                    arg = n.value.args[0] if n.value.args else None
+                    m = msg_param(fi)
+                    if arg is not None and ap(arg) == f"{m}.direction":
+                        whole = "pair"
+                    elif arg is not None and is_invert_of(arg, f"{m}.direction"):
+                        whole = "pair~"
+                    else:
+                        raise AnalysisError(f"{fi.qual}: {sel.name} argument {norm(arg) if arg is not None else None} "
+                                            f"is not the message's direction")
+                    unpack(roles, n.targets[0], whole, fi)
+                elif isinstance(n.value, ast.Name) and roles.get(n.value.id) in ("pair", "pair~"):
+                    unpack(roles, n.targets[0], roles[n.value.id], fi)
+                elif isinstance(n.targets[0], ast.Name) and roles.of(n.value) is not None:
+                    roles[n.targets[0].id] = roles.of(n.value)
+            changed = dict(roles) != before
         for c in calls(fi.node, into_defs=True):
             callee = resolve_method_call(repo, fi, c)
-            if callee is not None:
+            if callee is not None and callee != sel:
                 params = method_params(callee)
                 passed = {}
                 for i, a in enumerate(c.args):
-                    if isinstance(a, ast.Name) and a.id in roles and i < len(params):
-                        passed[params[i]] = roles[a.id]
+                    if roles.whole(a) is not None and i < len(params):
+                        passed[params[i]] = roles.whole(a)
                 for k in c.keywords:
-                    if isinstance(k.value, ast.Name) and k.value.id in roles and k.arg:
-                        passed[k.arg] = roles[k.value.id]
+                    if roles.whole(k.value) is not None and k.arg:
+                        passed[k.arg] = roles.whole(k.value)
                 if not passed:
                     continue
-                cur = out.setdefault(callee, {})
+                cur = out.setdefault(callee, Roles(info))
                 for p, r in passed.items():
                     if cur.get(p, r) != r:
                         raise AnalysisError(f"{callee.qual}: parameter {p} receives both tracker roles")
@@ -673,38 +803,44 @@ def tracker_roles(ctx, start: FuncInfo) -> Dict[FuncInfo, Dict[str, str]]:
     return out
 
 
+def call_chains(repo, rmap: Dict[FuncInfo, Any], start: FuncInfo, target: FuncInfo) -> List[List[Tuple[FuncInfo, ast.Call]]]:
+    """Chains of call sites [(caller, call), ...] (outermost first) leading from start to target through the
+    functions of rmap; [[]] when target is start."""
+    if target == start:
+        return [[]]
+    out = []
+
+    def rec(fi, prefix, seen):
+        for c in calls(fi.node, into_defs=True):
+            callee = resolve_method_call(repo, fi, c)
+            if callee is None or callee in seen or callee not in rmap:
+                continue
+            if callee == target:
+                out.append(prefix + [(fi, c)])
+            else:
+                rec(callee, prefix + [(fi, c)], seen | {callee})
+    rec(start, [], {start})
+    return out
+
+
 def r1(ctx):
     repo = ctx.repo
     ctx.rule("C05.R1", "tracker roles: _get_injections returns (forward, reverse) per direction; packet IDs go "
                        "through the forward tracker only, acks through the reverse tracker only")
-    gi = selector_fn(repo)
-    dparam = msg_param(gi)
-    seen = {"OUT": 0, "IN": 0}
-    for ret in [n for n in walk(gi.node) if isinstance(n, ast.Return)]:
-        v = ret.value
-        if not (isinstance(v, ast.Tuple) and len(v.elts) == 2 and all(ap(e) for e in v.elts)):
-            raise AnalysisError(f"{gi.qual}: unsupported return shape {norm(ret)}")
-        pol = None
-        for e, p in facts(ret, gi.node):
-            if isinstance(e, ast.Compare) and len(e.ops) == 1 and isinstance(e.ops[0], (ast.Eq, ast.NotEq, ast.Is, ast.IsNot)):
-                l, r = ap(e.left) or "", ap(e.comparators[0]) or ""
-                if dparam in (l, r):
-                    other = r if l == dparam else l
-                    eq = isinstance(e.ops[0], (ast.Eq, ast.Is)) == p
-                    if other.endswith("Direction.OUT"):
-                        pol = "OUT" if eq else "IN"
-                    elif other.endswith("Direction.IN"):
-                        pol = "IN" if eq else "OUT"
-        if pol is None:
+    info = selector_info(repo)
+    gi = info.fn
+    for ret, elems in info.rows:
+        if _direction_of(ret, gi, msg_param(gi)) is None:
             raise AnalysisError(f"{gi.qual}: cannot tell for which direction `{norm(ret)}` is returned")
-        seen[pol] += 1
-        want = ("self.out_injections", "self.in_injections") if pol == "OUT" else ("self.in_injections", "self.out_injections")
-        got = (ap(v.elts[0]), ap(v.elts[1]))
-        ctx.ob("C05.R1", f"tracker selector[{pol}] returns (forward, reverse) = {want}", got == want, ctx.w(gi, ret),
-               f"returns {got}: IDs of {pol} packets would be translated in the other direction's ID space")
-    ctx.floor("C05.R1", "tracker selector OUT returns", seen["OUT"], 1)
-    ctx.floor("C05.R1", "tracker selector IN returns", seen["IN"], 1)
-
+    ctx.floor("C05.R1", "tracker selector OUT returns", 1 if "OUT" in info.by_dir else 0, 1)
+    ctx.floor("C05.R1", "tracker selector IN returns", 1 if "IN" in info.by_dir else 0, 1)
+    for i in range(2):
+        o, n_ = info.by_dir["OUT"][i], info.by_dir["IN"][i]
+        label = (info.fields[i] if info.fields else f"element {i}")
+        ctx.ob("C05.R1", f"tracker selector: {label} is one role for both directions (out/in for OUT/IN or the inverse)",
+               o != n_ and {o, n_} == TRACKER_FIELDS and info.by_dir["OUT"][1 - i] == n_ and info.by_dir["IN"][1 - i] == o,
+               gi.where, f"{label} is {o} for OUT and {n_} for IN: IDs of one direction would be translated in the other "
+               f"direction's ID space")
     nf = nr = 0
     role_fns = set()
     for anchor in ("ProxiedCircuit.prepare_message", "ProxiedCircuit.drop_message"):
@@ -716,7 +852,7 @@ def r1(ctx):
                 if meth not in FWD | REV or not isinstance(c.func, ast.Attribute):
                     continue
                 recv = c.func.value
-                if not (isinstance(recv, ast.Name) and recv.id in roles):
+                if roles.of(recv) is None:
                     if isinstance(recv, ast.Name) and recv.id == "self":
                         continue
                     raise AnalysisError(f"{fi.qual}: tracker method {norm(c)} on a receiver whose role is unknown")
@@ -726,7 +862,7 @@ def r1(ctx):
                 else:
                     nr += 1
                 ctx.ob("C05.R1", f"{fi.qual}: {norm(c)} uses the {'forward' if want == 'fwd' else 'reverse'} tracker",
-                       roles[recv.id] == want, ctx.w(fi, c),
+                       roles.of(recv) == want, ctx.w(fi, c),
                        f"{meth} is a {'packet-ID' if want == 'fwd' else 'ack'} operation but runs on the "
                        f"{'reverse' if want == 'fwd' else 'forward'} tracker")
     ctx.floor("C05.R1", "forward-tracker calls", nf, 3)
@@ -768,7 +904,7 @@ class Sanit:
         srcs |= {k.arg for k in e.keywords if k.arg and self.is_source(k.value)}
         if not srcs:
             return None
-        roles = self.roles_map.get(callee, {})
+        roles = self.roles_map.get(callee, Roles(selector_info(self.repo)))
         sub = Sanit(callee, roles, None, sources=srcs, roles_map=self.roles_map, repo=self.repo)
         rets = [r for r in walk(callee.node) if isinstance(r, ast.Return) and r.value is not None]
         if not rets:
@@ -780,7 +916,7 @@ class Sanit:
         return True, ""
 
     def rev(self, e) -> bool:
-        return isinstance(e, ast.Name) and self.roles.get(e.id) == "rev"
+        return self.roles.of(e) == "rev" if isinstance(self.roles, Roles) else False
 
     def elem_origin(self, x) -> Optional[str]:
         """'acks' when x is an element of <msg>.acks, 'blocks' when it is a Packets block ID."""
@@ -892,6 +1028,18 @@ class Sanit:
                       f"<reverse>.was_injected(x)`"
 
 
+def chain_guards(repo, rmap, start: FuncInfo, fi: FuncInfo, node, extra=()) -> List[str]:
+    """Disallowed dominating conditions of `node` in fi, including those of every call site between start and fi."""
+    bad = list(_guards_allowed(node, fi, msg_param(fi), extra))
+    chains = call_chains(repo, rmap, start, fi)
+    if not chains:
+        raise AnalysisError(f"{fi.qual}: no call chain from {start.qual}")
+    for chain in chains:
+        for caller, call in chain:
+            bad.extend(_guards_allowed(call, caller, msg_param(caller), extra))
+    return sorted(set(bad))
+
+
 def _guards_allowed(node, fi, msg, extra=()) -> List[str]:
     """Dominating conditions of `node` that are not in the allowed set (normalised text)."""
     bad = []
@@ -935,8 +1083,8 @@ def r2(ctx):
                     n_sinks += 1
                     ok, why = sz.sanitised(st.value)
                     ctx.ob("C05.R2", f"{fi.qual}: store {msg}.acks is filtered and translated", ok, ctx.w(fi, st.node), why)
-                    if fi == pm:
-                        bad = _guards_allowed(st.node, fi, msg)
+                    if start == pm:
+                        bad = chain_guards(repo, rmap, pm, fi, st.node)
                         ctx.ob("C05.R2", f"{fi.qual}: ack rewrite runs for every endpoint-originated packet", not bad,
                                ctx.w(fi, st.node), f"rewrite of {msg}.acks additionally depends on {bad}: other "
                                f"forwarded packets keep raw wire-space acks")
@@ -957,12 +1105,13 @@ def r2(ctx):
                     ctx.ob("C05.R2", f"{fi.qual}: store {norm(st.target)} is filtered and translated", ok, ctx.w(fi, st.node), why)
     # presence of the appended-ack rewrite in prepare_message (else raw acks are forwarded)
     pm_msg = msg_param(pm)
-    has_store = any(st.path == f"{pm_msg}.acks" and st.kind == "assign" for st in stores(pm.node))
+    pm_map = tracker_roles(ctx, pm)
+    pm_fns = [f for f in pm_map if f.cls is not None and f.cls.name == "ProxiedCircuit"]
+    has_store = any(st.path == f"{msg_param(f)}.acks" and st.kind == "assign" for f in pm_fns for st in stores(f.node))
     ctx.ob("C05.R2", "ProxiedCircuit.prepare_message rewrites the appended acks of forwarded packets", has_store, pm.where,
            "no store to message.acks: wire-space acks (including acks for injected packets) reach the endpoint")
 
     # PacketAck rewrite helper: injected blocks removed, new block list installed, emptiness reported
-    pm_map = tracker_roles(ctx, pm)
     # the PacketAck block rewriter, found by shape: the helper reached from prepare_message that stores block["ID"]
     rps = [f for f in pm_map if f != pm and any(st.kind == "setitem" and is_const_sub(st.target, "ID") for st in stores(f.node))]
     if len(rps) > 1 or (not rps and any(st.kind == "setitem" and is_const_sub(st.target, "ID") for st in stores(pm.node))):
@@ -970,16 +1119,17 @@ def r2(ctx):
                             "read it and extend C05.R2")
     rp = rps[0] if rps else None
     rp_name = rp.name if rp is not None else "_rewrite_packet_ack"
-    rp_calls = [c for c in find_calls(pm.node, rp_name)]
+    rp_calls = [(f, c) for f in pm_fns if f != rp for c in find_calls(f.node, rp_name)]
     ctx.ob("C05.R2", "ProxiedCircuit.prepare_message rewrites PacketAck blocks", len(rp_calls) >= 1, pm.where,
            "PacketAck block IDs are forwarded untranslated")
-    for c in rp_calls:
-        bad = _guards_allowed(c, pm, pm_msg, extra=(lambda e, pol: name_eq_atom(e, "PacketAck") and pol,))
+    is_pa = (lambda e, pol: name_eq_atom(e, "PacketAck") and pol,)
+    for f, c in rp_calls:
+        bad = chain_guards(repo, pm_map, pm, f, c, extra=is_pa)
         ctx.ob("C05.R2", "ProxiedCircuit.prepare_message: PacketAck rewrite runs for every endpoint-originated PacketAck",
-               not bad and name_fact(c, "PacketAck", pm.node) is True, ctx.w(pm, c), f"depends on {bad}")
+               not bad and name_fact(c, "PacketAck", f.node) is True, ctx.w(f, c), f"depends on {bad}")
     if rp is not None and rp_calls:
         rmsg = msg_param(rp)
-        roles = pm_map.get(rp, {})
+        roles = pm_map.get(rp, Roles(selector_info(repo)))
         sz = Sanit(rp, roles, rmsg, roles_map=pm_map, repo=repo)
         installs = [st for st in stores(rp.node) if st.kind == "setitem" and is_const_sub(st.target, "Packets")
                     and ap(st.target.value) == rmsg]
@@ -1007,16 +1157,25 @@ def r2(ctx):
                         and r.value.value is False and path_fact(r, lst.id, rp.node) is False]
                 ctx.ob("C05.R2", "_rewrite_packet_ack reports an emptied PacketAck (returns False)", len(empt) >= 1, rp.where,
                        "an all-injected PacketAck is not reported to the caller and goes out empty")
-        # caller does not send it
-        rets = [r for r in walk(pm.node) if isinstance(r, ast.Return) and isinstance(r.value, ast.Constant)
-                and r.value.value is False and call_fact(r, rp_name, pm.node) is False]
-        ctx.ob("C05.R2", "prepare_message returns False for a PacketAck left with no acks at all", len(rets) >= 1, pm.where,
-               "emptied PacketAck is still sent")
-        for r in rets:
-            ctx.ob("C05.R2", "prepare_message refuses the PacketAck only when no appended ack survives either",
-                   path_fact(r, f"{pm_msg}.acks", pm.node) is False, ctx.w(pm, r),
-                   "a PacketAck whose blocks were all injected but which still carries surviving appended acks is "
-                   "suppressed: those acks never reach the endpoint")
+        # caller does not send it: the function that asked for the rewrite returns False, and so does every
+        # function between it and prepare_message
+        for f, c in rp_calls:
+            fmsg = msg_param(f)
+            rets = [r for r in walk(f.node) if isinstance(r, ast.Return) and isinstance(r.value, ast.Constant)
+                    and r.value.value is False and call_fact(r, rp_name, f.node) is False]
+            ok_up, why_up = bool(rets), "emptied PacketAck is still sent"
+            for chain in call_chains(repo, pm_map, pm, f):
+                for caller, call in chain:
+                    up = [r for r in walk(caller.node) if isinstance(r, ast.Return) and isinstance(r.value, ast.Constant)
+                          and r.value.value is False and call_fact(r, call_attr(call), caller.node) is False]
+                    if not up:
+                        ok_up, why_up = False, f"{caller.qual} ignores the refusal of {call_attr(call)}"
+            ctx.ob("C05.R2", "prepare_message returns False for a PacketAck left with no acks at all", ok_up, f.where, why_up)
+            for r in rets:
+                ctx.ob("C05.R2", "prepare_message refuses the PacketAck only when no appended ack survives either",
+                       path_fact(r, f"{fmsg}.acks", f.node) is False, ctx.w(f, r),
+                       "a PacketAck whose blocks were all injected but which still carries surviving appended acks is "
+                       "suppressed: those acks never reach the endpoint")
     send = repo.fn("Circuit.send", BCIRC)
     sp = find_calls(send.node, "_send_prepared_message")
     ctx.floor("C05.R2", "Circuit.send transmissions", len(sp), 1)
@@ -1037,7 +1196,7 @@ def r3(ctx):
     dm = repo.fn("ProxiedCircuit.drop_message")
     msg = msg_param(dm)
     dmap = tracker_roles(ctx, dm)
-    roles = dmap.get(dm, {})
+    roles = dmap.get(dm, Roles(selector_info(repo)))
     sz = Sanit(dm, roles, msg, roles_map=dmap, repo=repo)
     sa = repo.fn("Circuit.send_acks", BCIRC)
     sa_params = [a.arg for a in sa.node.args.args][1:]
@@ -1149,8 +1308,7 @@ def r4(ctx):
            "nothing is ever inserted into the unacked table: injected reliable packets are never retransmitted")
     for st in ins:
         key = st.target.slice
-        okk = isinstance(key, ast.Tuple) and len(key.elts) == 2 and ap(key.elts[0]) == f"{m}.direction" \
-            and ap(key.elts[1]) == f"{m}.packet_id"
+        okk = entry_key(repo, send, key) == (f"{m}.direction", f"{m}.packet_id")
         ctx.ob("C05.R4", "Circuit.send: table key is (message.direction, message.packet_id)", okk, ctx.w(send, st.node),
                f"key is {norm(key)}")
         ctx.ob("C05.R4", "Circuit.send: insertion requires message.reliable", path_fact(st.node, f"{m}.reliable", send.node) is True,
@@ -1165,6 +1323,8 @@ def r4(ctx):
         ctx.ob("C05.R4", "Circuit.send: insertion depends on nothing else", not extra, ctx.w(send, st.node),
                f"additionally depends on {extra}")
         val = st.value
+        if isinstance(val, ast.Name) and single_assign(send.node, val.id) is not None:
+            val = single_assign(send.node, val.id)
         okv = isinstance(val, ast.Call) and call_attr(val) == "ReliableResendInfo" and \
             any(k.arg == "message" and ap(k.value) == m for k in val.keywords) or \
             (isinstance(val, ast.Call) and call_attr(val) == "ReliableResendInfo" and len(val.args) >= 2 and ap(val.args[1]) == m)
@@ -1185,6 +1345,43 @@ def r4(ctx):
         okt = okt or (in_for and in_while)
     ctx.ob("C05.R4", "attempt_resends drives resend_unacked for every region of the session, forever", okt, ar.where,
            "no periodic resend of unacknowledged injected packets")
+
+
+def entry_key(repo, fi: FuncInfo, expr, depth=0) -> Optional[Tuple[str, str]]:
+    """(direction path, id path) of an unacked-table key expression.  A local assigned once is resolved, a
+    property of the entry object is expanded, and `<entry>.message` of an entry built in this function is
+    replaced by the message it was built with."""
+    if expr is None or depth > 4:
+        return None
+    if isinstance(expr, ast.Name):
+        v = single_assign(fi.node, expr.id)
+        return entry_key(repo, fi, v, depth + 1) if v is not None else None
+    pair = None
+    if isinstance(expr, ast.Tuple) and len(expr.elts) == 2 and all(ap(e) for e in expr.elts):
+        pair = (ap(expr.elts[0]), ap(expr.elts[1]))
+    elif isinstance(expr, ast.Attribute) and ap(expr.value):
+        props = [g for g in repo.funcs.get(expr.attr, []) if g.module is fi.module and g.cls is not None
+                 and any((ap(d) or "") == "property" for d in g.node.decorator_list)]
+        if len(props) == 1:
+            rets = [r for r in walk(props[0].node) if isinstance(r, ast.Return)]
+            if len(rets) == 1 and isinstance(rets[0].value, ast.Tuple) and len(rets[0].value.elts) == 2:
+                ps = [ap(e) for e in rets[0].value.elts]
+                if all(p_ and p_.startswith("self.") for p_ in ps):
+                    base = ap(expr.value)
+                    pair = (base + ps[0][4:], base + ps[1][4:])
+    if pair is None:
+        return None
+    out = []
+    for p_ in pair:
+        head, _, rest = p_.partition(".message.")
+        if rest and "." not in head:
+            v = single_assign(fi.node, head)
+            if isinstance(v, ast.Call):
+                msgs = [ap(k.value) for k in v.keywords if k.arg == "message"]
+                if len(msgs) == 1 and msgs[0]:
+                    p_ = f"{msgs[0]}.{rest}"
+        out.append(p_)
+    return out[0], out[1]
 
 
 def check_resend(ctx, rule):
@@ -1226,15 +1423,23 @@ def check_resend(ctx, rule):
         ctx.ob(rule, "Circuit.resend_unacked resends the entry's own message", ".message" in txt, ctx.w(ru, c),
                f"resent message comes from `{txt}`")
     # cadence: the resend is held back by a test on the time elapsed since last_resent, over the full duration
-    def expand(e, depth=0):
-        """e with local names (assigned once) replaced by their values, as a list of sub-expressions to inspect."""
+    def expand(e, depth=0, fn=None):
+        """e with local names (assigned once) replaced by their values and calls of predicate methods of the
+        entry class (same module) replaced by what they return, as a list of sub-expressions to inspect."""
+        fn = fn or ru
         out = [e]
         if depth < 4:
             for n in ast.walk(e):
                 if isinstance(n, ast.Name):
-                    v = single_assign(ru.node, n.id)
+                    v = single_assign(fn.node, n.id)
                     if v is not None:
-                        out.extend(expand(v, depth + 1))
+                        out.extend(expand(v, depth + 1, fn))
+                elif isinstance(n, ast.Call) and isinstance(n.func, ast.Attribute):
+                    cands = [g for g in repo.funcs.get(n.func.attr, []) if g.module is ru.module and g.cls is not None]
+                    if len(cands) == 1 and cands[0] != ru:
+                        for r in walk(cands[0].node):
+                            if isinstance(r, ast.Return) and r.value is not None:
+                                out.extend(expand(r.value, depth + 1, cands[0]))
         return out
     for c in sends:
         tests = []
@@ -1283,8 +1488,8 @@ def check_resend(ctx, rule):
            ru.where, "no removal guarded by tries_left: the packet is retransmitted forever or its future never fails")
     for st in exhausted:
         key = st.target.slice if st.kind == "delitem" else (st.node.args[0] if st.node.args else None)
-        okk = isinstance(key, ast.Tuple) and len(key.elts) == 2 and (ap(key.elts[0]) or "").endswith(".direction") \
-            and (ap(key.elts[1]) or "").endswith(".packet_id")
+        ek = entry_key(repo, ru, key)
+        okk = ek is not None and ek[0].endswith(".direction") and ek[1].endswith(".packet_id")
         ctx.ob(rule, "Circuit.resend_unacked: give-up removes the (direction, packet_id) key of the entry", okk,
                ctx.w(ru, st.node), f"key is {norm(key) if key is not None else None}")
         rn = [n for n in cfg.nodes_for(enclosing_stmt(st.node))]
@@ -1340,6 +1545,15 @@ def r5(ctx):
 
 # ============================================================================ R6 early exits of the translation loops
 
+def _iter_base(it):
+    base = it
+    while isinstance(base, ast.Call) and base.args:
+        base = base.args[0]
+    while isinstance(base, ast.Subscript):
+        base = base.value
+    return base
+
+
 def r6(ctx):
     repo = ctx.repo
     ctx.rule("C05.R6", "ack translation counts every injection: a loop over the (ascending) injection deque may leave "
@@ -1347,8 +1561,28 @@ def r6(ctx):
     ctx.assume("InjectionTracker.injections is strictly ascending (C04.R1)")
     n = 0
     for q in ("InjectionTracker.get_original_id", "InjectionTracker.get_effective_id"):
-        fi = repo.fn(q)
-        for f, loop in loops_over([fi], ".injections"):
+        fi0 = repo.fn(q)
+        found = [(f, loop) for f, loop in loops_over([fi0], ".injections")]
+        # the walk may live in a helper (method or module-level function) that is handed self.injections
+        from .common import module_funcs_reachable
+        for g in module_funcs_reachable(repo, fi0, depth=2):
+            if g == fi0:
+                continue
+            gparams = [a.arg for a in g.node.args.args]
+            recv = set()
+            for h in module_funcs_reachable(repo, fi0, depth=2):
+                for c in find_calls(h.node, g.name, into_defs=False):
+                    ps = gparams[1:] if g.cls is not None and isinstance(c.func, ast.Attribute) else gparams
+                    for i, a in enumerate(c.args):
+                        if (ap(a) or "").endswith(".injections") and i < len(ps):
+                            recv.add(ps[i])
+                    for k in c.keywords:
+                        if (ap(k.value) or "").endswith(".injections") and k.arg:
+                            recv.add(k.arg)
+            for prm in recv:
+                found.extend((f, loop) for f, loop in loops_over([g], prm)
+                             if (ap(_iter_base(loop.iter)) or "") == prm)
+        for fi, loop in found:
             n += 1
             it = loop.iter
             desc = isinstance(it, ast.Call) and ap(it.func) == "reversed"
@@ -1403,6 +1637,196 @@ def r6(ctx):
                        "(C04.R2/R3 re-run under C05 keys)")
 
 
+# ============================================================================ R7 a taken copy starts clean
+
+def r7(ctx):
+    repo = ctx.repo
+    ctx.rule("C05.R7", "a taken copy never carries the original's acks: Message.take() clears acks, the ACK flag and "
+                       "the packet id of the copy on every path (the original's acks are forwarded by drop_message)")
+    tk = repo.fn("Message.take", "hippolyzer/lib/base/message/message.py")
+    cfg = CFG(tk.node)
+    rets = [r for r in walk(tk.node) if isinstance(r, ast.Return) and r.value is not None]
+    ctx.require(bool(rets), "Message.take returns nothing")
+    for r in rets:
+        cp = ap(r.value)
+        if cp is None or cp == "self":
+            ctx.ob("C05.R7", "Message.take returns a separate copy", False, ctx.w(tk, r), f"returns {norm(r.value)}")
+            continue
+        rn = cfg.nodes_for(r)
+
+        def must_pass(pred):
+            nodes = [n for st in stores(tk.node, into_defs=False) if pred(st) for n in cfg.nodes_for(st.node)]
+            reach = cfg.reachable([cfg.entry], avoid=lambda n: n in nodes)
+            return bool(nodes) and not any(n in reach for n in rn)
+
+        def empty(v):
+            return (isinstance(v, (ast.Tuple, ast.List)) and not v.elts) or \
+                (isinstance(v, ast.Call) and ap(v.func) in ("tuple", "list") and not v.args and not v.keywords)
+        ctx.ob("C05.R7", "Message.take: the copy's acks are emptied on every path",
+               must_pass(lambda st: st.path == f"{cp}.acks" and st.kind == "assign" and st.value is not None and empty(st.value)),
+               ctx.w(tk, r), "a path returns the copy with the original's appended acks: they reach the endpoint a second "
+               "time (and untranslated) when the copy is sent")
+        ctx.ob("C05.R7", "Message.take: the copy's ACK flag is cleared on every path",
+               must_pass(lambda st: st.path == f"{cp}.send_flags" and st.kind == "augassign" and isinstance(st.node.op, ast.BitAnd)
+                         and isinstance(st.value, ast.UnaryOp) and isinstance(st.value.op, ast.Invert)
+                         and (ap(st.value.operand) or "").endswith("PacketFlags.ACK")),
+               ctx.w(tk, r), "a path returns the copy with PacketFlags.ACK still set")
+        ctx.ob("C05.R7", "Message.take: the copy's packet id is reset to None on every path",
+               must_pass(lambda st: st.path == f"{cp}.packet_id" and st.kind == "assign" and isinstance(st.value, ast.Constant)
+                         and st.value.value is None),
+               ctx.w(tk, r), "a path returns the copy with the original's packet id: it is sent as if it were the "
+               "original endpoint packet instead of an injected one")
+
+
+# ============================================================================ R8 live circuit state is not discarded
+
+def _prop_formula(fn: FuncInfo) -> Optional[ast.AST]:
+    """Boolean property body `if t: return a ... return z` as one expression over `self`."""
+    body = [s_ for s_ in fn.node.body if not (isinstance(s_, ast.Expr) and isinstance(s_.value, ast.Constant))]
+    expr = None
+    for s_ in reversed(body):
+        if isinstance(s_, ast.Return) and s_.value is not None and expr is None:
+            expr = s_.value
+        elif isinstance(s_, ast.If) and not s_.orelse and len(s_.body) == 1 and isinstance(s_.body[0], ast.Return) \
+                and s_.body[0].value is not None and expr is not None:
+            expr = ast.IfExp(test=s_.test, body=s_.body[0].value, orelse=expr)
+        else:
+            return None
+    return expr
+
+
+def _subst_self(e, repl: ast.AST):
+    import copy as _copy
+
+    class T(ast.NodeTransformer):
+        def visit_Name(self, n):
+            return _copy.deepcopy(repl) if n.id == "self" else n
+    return T().visit(_copy.deepcopy(e))
+
+
+def _canon(e):
+    """`a != b` -> not (a == b) with ordered operands, `a not in b` -> not (a in b): one atom per comparison."""
+    if isinstance(e, ast.Compare) and len(e.ops) == 1 and not is_none_test(e):
+        l, r = e.left, e.comparators[0]
+        op = e.ops[0]
+        if isinstance(op, (ast.Eq, ast.NotEq)):
+            if dump(l) > dump(r):
+                l, r = r, l
+            base = ast.Compare(left=l, ops=[ast.Eq()], comparators=[r])
+            return ast.UnaryOp(op=ast.Not(), operand=base) if isinstance(op, ast.NotEq) else base
+        if isinstance(op, ast.NotIn):
+            return ast.UnaryOp(op=ast.Not(), operand=ast.Compare(left=l, ops=[ast.In()], comparators=[r]))
+    return e
+
+
+def _bool_leaves(e, out, expand):
+    e = _canon(expand(e))
+    if isinstance(e, ast.UnaryOp) and isinstance(e.op, ast.Not):
+        _bool_leaves(e.operand, out, expand)
+    elif isinstance(e, ast.BoolOp):
+        for v in e.values:
+            _bool_leaves(v, out, expand)
+    elif isinstance(e, ast.IfExp):
+        for v in (e.test, e.body, e.orelse):
+            _bool_leaves(v, out, expand)
+    elif isinstance(e, ast.Constant):
+        pass
+    else:
+        nt = is_none_test(e)
+        out.add(dump(e.left) if nt else dump(e))
+
+
+def _bool_eval(e, env, expand) -> bool:
+    e = _canon(expand(e))
+    if isinstance(e, ast.UnaryOp) and isinstance(e.op, ast.Not):
+        return not _bool_eval(e.operand, env, expand)
+    if isinstance(e, ast.BoolOp):
+        vals = [_bool_eval(v, env, expand) for v in e.values]
+        return all(vals) if isinstance(e.op, ast.And) else any(vals)
+    if isinstance(e, ast.IfExp):
+        return _bool_eval(e.body if _bool_eval(e.test, env, expand) else e.orelse, env, expand)
+    if isinstance(e, ast.Constant):
+        return bool(e.value)
+    nt = is_none_test(e)
+    if nt:
+        present = env[dump(e.left)]          # object-valued: truthy iff not None
+        return (not present) if nt[1] else present
+    return env[dump(e)]
+
+
+def prop_expand(repo, e, keep=()):
+    """`x.prop` -> the boolean formula of a (repo-unique) property `prop` with self := x; other nodes unchanged."""
+    if isinstance(e, ast.Attribute) and ap(e.value) and not getattr(e, "_noexpand", False) \
+            and not any(dump(e) == dump(a) for a in keep):
+        props = [g for g in repo.funcs.get(e.attr, []) if g.cls is not None and
+                 any((ap(d) or "") == "property" for d in g.node.decorator_list)]
+        if len(props) == 1:
+            f_ = _prop_formula(props[0])
+            if f_ is not None and all(isinstance(n, (ast.expr, ast.boolop, ast.unaryop, ast.cmpop, ast.expr_context))
+                                      for n in ast.walk(f_)):
+                # the property lives on the object that *has* the attributes its formula reads from self:
+                # `y.circuit.is_alive` is the circuit's own flag, not the region property
+                reads = {n.attr for n in ast.walk(f_) if isinstance(n, ast.Attribute) and isinstance(n.value, ast.Name)
+                         and n.value.id == "self"}
+                if isinstance(e.value, ast.Attribute) and e.value.attr in reads:
+                    return e
+                out = _subst_self(f_, e.value)
+                for n in ast.walk(out):
+                    n._noexpand = True
+                return out
+    return e
+
+
+def facts_exclude(repo, facts_, assumed: List[ast.AST]) -> bool:
+    """The conjunction of the facts is unsatisfiable together with all `assumed` expressions being truthy
+    (exhaustive truth table over the atomic sub-conditions; boolean properties over `self.circuit` are expanded)."""
+    def expand(e):
+        return prop_expand(repo, e, assumed)
+    leaves: set = set()
+    for e, _ in facts_:
+        _bool_leaves(e, leaves, expand)
+    for a in assumed:
+        leaves.add(dump(a))
+    leaves = sorted(leaves)
+    if len(leaves) > 12:
+        raise AnalysisError("too many atomic conditions for the truth-table check")
+    fixed = {dump(a) for a in assumed}
+    free = [l for l in leaves if l not in fixed]
+    for bits in range(1 << len(free)):
+        env = {l: True for l in fixed}
+        env.update({l: bool(bits >> i & 1) for i, l in enumerate(free)})
+        if all(_bool_eval(e, env, expand) == pol for e, pol in facts_):
+            return False
+    return True
+
+
+def r8(ctx):
+    repo = ctx.repo
+    ctx.rule("C05.R8", "live circuit state is never discarded: a region's circuit object (injection trackers, unacked "
+                       "table, id counter) is replaced only when the region has no circuit or the circuit is dead")
+    ccls = repo.cls("Circuit", BCIRC)
+    circ_names = {c.name for c in repo.subclasses(ccls)}
+    n = 0
+    for f, st in writers_of(repo, "circuit"):
+        if st.kind != "assign" or not isinstance(st.value, ast.Call) or call_attr(st.value) not in circ_names:
+            continue
+        n += 1
+        owner = st.target.value if isinstance(st.target, ast.Attribute) else None
+        if owner is None:
+            continue
+        cur = ast.Attribute(value=owner, attr="circuit", ctx=ast.Load())
+        alive = ast.Attribute(value=cur, attr="is_alive", ctx=ast.Load())
+        if isinstance(owner, ast.Name) and owner.id == "self" and f.name == "__init__":
+            continue
+        ok = facts_exclude(repo, facts(st.node, f.node), [cur, alive])
+        ctx.ob("C05.R8", f"{f.qual}: `{norm(st.target)} = {call_attr(st.value)}(...)` only when there is no live circuit", ok,
+               ctx.w(f, st.node),
+               f"the dominating conditions do not exclude `{norm(cur)} and {norm(alive)}`: a live circuit is thrown away "
+               f"together with its injection/ack translation state and its unacknowledged reliable sends (later acks "
+               f"are mistranslated, pending sends never complete)")
+    ctx.floor("C05.R8", "circuit (re)constructions", n, 1)
+
+
 def run(ctx):
     r1(ctx)
     r2(ctx)
@@ -1410,6 +1834,8 @@ def run(ctx):
     r4(ctx)
     r5(ctx)
     r6(ctx)
+    r7(ctx)
+    r8(ctx)
     ctx.assume("interleaving-level truthfulness and resend cadence (time) are not decided statically")
     ctx.note("drop_message's stand-in PacketAck reuses the dropped packet's id as a synthetic id "
              "(wire-id space vs endpoint-id space) - observed, not armed")
